@@ -96,6 +96,15 @@ def bounds(tier, seed):
 FLOORS = {'via_reused_object': 100, 'reused_request': 20000, 'via_redirect': 200, 'plain_roundtrips': 500, 'signed_roundtrips': 20, 'tampered': 50000, 'quoted_values': 300}
 
 
+COOKIE_OPTIONS = [{}, {'max_age': 60}, {'path': '/x', 'secure': True, 'httponly': True}, {'expires': 1700000000}, {'domain': 'h.test', 'max_age': 0}]
+
+
+def options_for(name, value):
+    """a function of the case (replays use the same attributes)"""
+    import zlib
+    return COOKIE_OPTIONS[zlib.crc32(repr((name, value)).encode('utf8', 'replace')) % len(COOKIE_OPTIONS)]
+
+
 def emit_cookie(om, name, value, secret, via_redirect=False):
     """Serve a request whose handler sets the cookie (optionally followed by redirect(), which answers with a COPY of the
     response); return the cookie-pair string of the Set-Cookie header."""
@@ -106,7 +115,8 @@ def emit_cookie(om, name, value, secret, via_redirect=False):
 
     def h():
         try:
-            app.response.set_cookie(name, value, secret=secret)
+            # cookie attributes (rotating) never change the value that comes back
+            app.response.set_cookie(name, value, secret=secret, **options_for(name, value))
         except Exception as e:   # noqa
             err['e'] = f'{type(e).__name__}: {e}'
         if via_redirect:
